@@ -40,7 +40,7 @@ def nontrivial(case, obs):
 
 
 def classify(case, obs):
-    d = {"mode_" + case["mode"]: 1, "ending_" + case["ending"]: 1, "nested": int(case["nested"]), "cmds": len(case["cmds"]), "anomaly": int(bool(obs["anomaly"]))}
+    d = {"mode_" + case["mode"]: 1, "ending_" + case["ending"]: 1, "nested": int(bool(case["nested"])), "nested_" + str(case["nested"]): 1, "cmds": len(case["cmds"]), "anomaly": int(bool(obs["anomaly"]))}
     for adv, c in case["cmds"]:
         d["op_" + c[0]] = d.get("op_" + c[0], 0) + 1
     return d
